@@ -748,9 +748,10 @@ private:
     template <typename It0, typename It1>
     constexpr void assert_valid_iterator_pair([[maybe_unused]] It0 first, [[maybe_unused]] It1 last) noexcept
     {
-        static_assert(is_pointer_v<It0>);
-        static_assert(is_pointer_v<It1>);
-        TETL_PRECONDITION(first <= last);
+        // only pointers can be ordered: a pair of input or forward iterators is taken as it is
+        if constexpr (is_pointer_v<It0> and is_pointer_v<It1>) {
+            TETL_PRECONDITION(first <= last);
+        }
     }
 
     template <typename It0, typename It1>
